@@ -316,12 +316,12 @@ func (s *Stream) WriteSCTP(payload []byte, ppi PayloadProtocolIdentifier) (int, 
 		return 0, nil
 	}
 
-	// the send could fail if the association is blocked for writing (timeout), it will left a hole
-	// in the stream sequence number space, so we need to lock the write to avoid concurrent send and decrement
-	// the sequence number in case of failure
-	if s.association.isBlockWrite() {
-		s.writeLock.Lock()
-	}
+	// the send could fail (a blocked write times out, or the association has just left the
+	// established state), it would leave a hole in the stream sequence number space, so we need to
+	// lock the write to avoid concurrent send and decrement the sequence number in case of failure.
+	// This is needed in every mode: without it a concurrent writer that took a later number and was
+	// queued successfully is stuck behind the hole for ever at the receiver.
+	s.writeLock.Lock()
 	useInterleaving := s.association.useInterleaving
 	chunks, unordered := s.packetize(payload, ppi)
 	n := len(payload)
@@ -341,9 +341,7 @@ func (s *Stream) WriteSCTP(payload []byte, ppi PayloadProtocolIdentifier) (int, 
 		s.lock.Unlock()
 		n = 0
 	}
-	if s.association.isBlockWrite() {
-		s.writeLock.Unlock()
-	}
+	s.writeLock.Unlock()
 
 	return n, err
 }
